@@ -58,6 +58,7 @@ func c08side(c *Ctx) {
 		behind := false // W1B stands behind the failing W1: it gets what W1 was handed
 		var stdout func() (out1, out2 []byte)
 		perGoroutine := false // records that carry "own" went through a logger derived by their goroutine: req == own
+		var sharedIntact func() string // after the load: is the value all goroutines shared what the application built?
 
 		switch sc {
 		case "failing":
@@ -98,7 +99,7 @@ func c08side(c *Ctx) {
 			// the base logger went through 0-7 further derivation steps; every goroutine derives a logger OF ITS OWN from it
 			// (the per-request pattern) while the others do the same, and uses it: a record carries the attribute of the
 			// logger it went through
-			steps := (idx / 3) % 8
+			steps := []int{2, 4, 6, 5, 0, 1, 3, 7}[(idx/4)%8] // (with the first step: 3, 5, 7, 6, 1, 2, 4, 8 entries in the derivation list)
 			for i := 0; i < steps; i++ {
 				sl = sl.With(fmt.Sprintf("s%d", i), i)
 			}
@@ -106,6 +107,31 @@ func c08side(c *Ctx) {
 			sl2 := sl.With("tail", "t")
 			// one group value shared by all goroutines; it holds a zero Attr (log/slog asks handlers to ignore those)
 			sharedGroup := stdslog.Group("sg", stdslog.Int("a", 1), stdslog.Attr{}, stdslog.String("z", "Z"), stdslog.Attr{}, stdslog.Group("in", stdslog.Attr{}, stdslog.Int("q", 2)))
+			sharedIntact = func() string {
+				// logging reads the values it is given. A value shared by all goroutines that reads differently after the
+				// load was WRITTEN by the library - a data race whenever two such calls overlap, whether or not the race
+				// detector happened to see one
+				spell := func(as []stdslog.Attr) string {
+					var sb strings.Builder
+					for _, a := range as {
+						if a.Equal(stdslog.Attr{}) {
+							sb.WriteString("<zero> ")
+						} else {
+							sb.WriteString(a.Key + " ")
+						}
+					}
+					return sb.String()
+				}
+				top := sharedGroup.Value.Group()
+				got := spell(top)
+				if len(top) == 5 && top[4].Value.Kind() == stdslog.KindGroup {
+					got += "| " + spell(top[4].Value.Group())
+				}
+				if want := "a <zero> z <zero> in | <zero> q "; got != want {
+					return fmt.Sprintf("the group value all goroutines logged reads [%s] after the load, the application built [%s]", got, want)
+				}
+				return ""
+			}
 			wantAttrs = map[string]string{"zone": "eu", "svc": "y", "alpha": "1"}
 			for i := 0; i < steps; i++ {
 				wantAttrs[fmt.Sprintf("s%d", i)] = fmt.Sprint(i)
@@ -179,6 +205,9 @@ func c08side(c *Ctx) {
 				// several goroutines at once is configuration, which the library does not synchronise)
 				mine := slog.New(fmt.Sprintf("own%d-%d", idx, g)).Root()
 				setFormat(mine, f)
+				if g%2 == 1 {
+					mine.SetLevel(slog.AlwaysLevel) // (a level is no writer: these loggers still own none)
+				}
 				wg.Add(1)
 				go func() {
 					defer wg.Done()
@@ -191,7 +220,12 @@ func c08side(c *Ctx) {
 							req.Info("r-" + id)
 							req.Close()
 						}
-						lstd.Info("m-"+id, "id", id)
+						// (every third record is of the error class: it goes to the process's stderr)
+						if k%3 == 2 {
+							lstd.Warn("m-"+id, "id", id)
+						} else {
+							lstd.Info("m-"+id, "id", id)
+						}
 						atomic.AddInt64(&issuedStd, 1)
 					}
 				}()
@@ -214,8 +248,16 @@ func c08side(c *Ctx) {
 			c.R.Done()
 			os.Exit(0)
 		}
+		if sharedIntact != nil {
+			c.R.Add("shared_values_compared_with_what_the_application_built", 1)
+			if why := sharedIntact(); why != "" {
+				c.R.Violation(idx, "race", "C08/side/"+sc+"/shared-value-written", why, desc)
+				return
+			}
+		}
 		if stdout != nil {
-			out1, _ := stdout()
+			out1, out2 := stdout()
+			out1 = append(append([]byte(nil), out1...), out2...)
 			seen := map[string]int{}
 			for _, ln := range bytes.Split(out1, []byte{'\n'}) {
 				i := bytes.Index(ln, []byte("m-g"))
@@ -228,12 +270,12 @@ func c08side(c *Ctx) {
 			}
 			c.R.Add("records_read_back_from_the_process_stdout", int64(len(seen)))
 			if int64(len(seen)) != issuedStd {
-				c.R.Violation(idx, "loss-or-duplication", "C08/side/"+sc+"/stdout", fmt.Sprintf("%d calls issued on a logger that writes to the process's stdout (other goroutines made, used and closed request-scoped children of it meanwhile), %d distinct records arrived there", issuedStd, len(seen)), desc)
+				c.R.Violation(idx, "loss-or-duplication", "C08/side/"+sc+"/stdout", fmt.Sprintf("%d calls issued on a logger that writes to the process's stdout / stderr (other goroutines made, used and closed request-scoped loggers of their own meanwhile), %d distinct records arrived there", issuedStd, len(seen)), desc)
 				return
 			}
 			for id, n := range seen {
 				if n != 1 {
-					c.R.Violation(idx, "loss-or-duplication", "C08/side/"+sc+"/stdout", fmt.Sprintf("record %s arrived %d times on stdout", id, n), desc)
+					c.R.Violation(idx, "loss-or-duplication", "C08/side/"+sc+"/stdout", fmt.Sprintf("record %s arrived %d times on stdout / stderr", id, n), desc)
 					return
 				}
 			}
